@@ -23,6 +23,8 @@ theorem wfs_renameStep {sv : Server} (h : WFs sv) (d n n' : String) (dt : Bool) 
   · simp only [hv, Bool.not_false, if_true]; exact h
   simp only [hv, Bool.not_true, Bool.false_eq_true, if_false]
   split
+  · exact h
+  split
   · exact w1
   · split
     · cases dt with
@@ -58,6 +60,14 @@ theorem wf_addCollCache {w : World} (h : WF w) (c : Nat) (d n : String) (hv : va
 theorem wf_init : WF World.init := by
   refine ⟨fun _ => wfs_nil, ?_⟩
   intro c d n hm; simp [World.init] at hm
+
+theorem wf_dropDatabaseStep (σ : Nat → Nat) {w : World} (c : Nat) (d : String) (h : WF w) :
+    WF (dropDatabaseStep σ w c d).1 := by
+  simp only [dropDatabaseStep]
+  have wx : WFs ((w.store (σ c)).touchDb d) := wfs_touchDb (h.1 _) d
+  split
+  · exact wf_addDbCache (wf_setStore h _ (wfs_setDb wx d (wfdb_dropAll (wfdb_db wx d)))) c d
+  · exact wf_setStore h _ wx
 
 theorem wf_step (σ : Nat → Nat) (w : World) (op : Op) (h : WF w) : WF (Catalog.step σ w op).1 := by
   cases op with
@@ -114,20 +124,12 @@ theorem wf_step (σ : Nat → Nat) (w : World) (op : Op) (h : WF w) : WF (Catalo
   | listDatabaseNames c => exact h
   | dropDatabase c t =>
     cases t with
-    | byName d =>
-      simp only [Catalog.step]
-      have wx : WFs ((w.store (σ c)).touchDb d) := wfs_touchDb (h.1 _) d
-      split
-      · exact wf_addDbCache (wf_setStore h _ (wfs_setDb wx d (wfdb_dropAll (wfdb_db wx d)))) c d
-      · exact wf_setStore h _ wx
+    | byName d => simp only [Catalog.step]; exact wf_dropDatabaseStep σ c d h
     | byHandle hh =>
       simp only [Catalog.step, unob]
-      have wx : WFs ((w.store (σ c)).touchDb hh.db) := wfs_touchDb (h.1 _) hh.db
       split
       · exact h
-      · split
-        · exact h
-        · exact wf_setStore h _ (wfs_setDb wx hh.db (wfdb_dropAll (wfdb_db wx hh.db)))
+      · exact wf_dropDatabaseStep σ c hh.db h
 
 theorem wf_run (σ : Nat → Nat) (ops : List Op) : ∀ (w : World), WF w → WF (Catalog.run σ w ops).1 := by
   induction ops with
